@@ -112,6 +112,25 @@ def placement_clause(model, rep, funcs):
         rep.instance("U", f.loc())
         rep.ob("U", f.anchor, "molecule positions are converted to pixels (pos / scale) before they are split into integer start and residue",
                u.fits(frozenset({PX})) if u is not None else None, f"pos is {u!r}", node=f.node, fn=f, clause="1 placement", stmt="def _prep_iterators units")
+    # simulate_2d: the virtual z extent handed to the worker is in pixels
+    f2 = funcs.get(S + "TomogramSimulator.simulate_2d")
+    if f2 is not None:
+        udom = UnitsDomain(model)
+        it = Interp(model, udom, depth=0)
+        got2 = []
+
+        def on_call2(interp, fn, node, callee, args, kwargs, env):
+            if fn is f2 and isinstance(node.func, ast.Attribute) and node.func.attr == "add_task" and len(args) >= 5:
+                got2.append(args[4])
+
+        it.on_call.append(on_call2)
+        it.run(f2)
+        rep.instance("U", f2.loc())
+        u = udom._lift(got2[0]) if got2 else None
+        clash = [msg for kind, fn_, node_, msg in udom.events if fn_ is f2]
+        ok = (u.fits(frozenset({PX})) and not clash) if u is not None else (False if clash else None)
+        rep.ob("U", f2.anchor, "the virtual volume shape handed to the 2-D worker is in pixels (max z position / scale + template size)", ok,
+               "; ".join(clash)[:300] or f"shape is {u!r}", node=f2.node, fn=f2, clause="1 placement", stmt="def simulate_2d units")
     # projection worker
     g = funcs.get(S + "_simulate_projection_one")
     if g is not None:
